@@ -10,8 +10,13 @@ pub struct Driver {
   pub requests: u64,
 }
 
+/// root of the verification tree (`/verif`, or a worktree copy of it)
+pub fn verif_root() -> String {
+  std::env::var("VERIF_ROOT").unwrap_or_else(|_| "/verif".to_string())
+}
+
 pub fn driver_path() -> String {
-  std::env::var("SLMODEL").unwrap_or_else(|_| "/verif/lean/.lake/build/bin/slmodel".to_string())
+  std::env::var("SLMODEL").unwrap_or_else(|_| format!("{}/lean/.lake/build/bin/slmodel", verif_root()))
 }
 
 impl Driver {
